@@ -14,7 +14,9 @@ def run(ctx):
          ('d2.h3.n2', D(2, 3, 2, 2, NEXTRA=1, SYMBOLIC_EXTRA=1), [-2, -1, 1, -1, 0, 0], 200, 'leaf x {lower face, centre, closed upper box face}'),
          ('d2.h2.n2.box1.float', D(2, 2, 2, 0, BOX=1, REALT='float', NEXTRA=1), [-3, -1, 1, -1, 0, 0], 120, 'float coordinates and data'),
          ('d3.h2.n2.box1', D(3, 2, 2, 0, BOX=1, NEXTRA=3, SYMBOLIC_EXTRA=1), [-2, 0, 1, -1, 0, 0], 200, 'per-dimension widths 2, 0.5, 8: full half lattice incl. all box faces'),
-         ('d3.h3.n2.mixed', D(3, 3, 2, 1, DATAT='float', NEXTRA=2), [-2, -1, 1, -1, 0, 0], 240, 'double coordinates stored as float data')]
+         ('d3.h3.n2.mixed', D(3, 3, 2, 1, DATAT='float', NEXTRA=2), [2, -1, 1, -1, 0, 0], 240, 'double coordinates stored as float data'),
+         ('d2.h3.n2.float-coords-double-data', D(2, 3, 2, 1, REALT='float', DATAT='double', CONTT='double', NEXTRA=2), [-2, -1, 1, -1, 0, 0], 200, 'float coordinates, double data handed over in a double container: values not representable in float must survive'),
+         ('d3.h12.n2.deep', D(3, 12, 2, 3, NEXTRA=1, SYMBOLIC_EXTRA=1), [-2, -1, 0, -1, 0, 0], 240, 'deep sparse tree: 33-bit leaf indices')]
     if not q:
         T += [('d1.h6.n3', D(1, 6, 3, 2, NEXTRA=2, SYMBOLIC_EXTRA=1), [-4, -1, 1, -1, 0, 0], 900, ''),
               ('d2.h3.n3.box1', D(2, 3, 3, 1, BOX=1, NEXTRA=1, SYMBOLIC_EXTRA=1), [-4, -1, 1, -1, 0, 0], 900, ''),
